@@ -279,3 +279,11 @@ func Run(name string, f func()) (failed bool, detail string) {
 	}
 	return false, ""
 }
+
+// LazyJSON returns the text of an arbitrary JSON document of nesting depth <= depth and width <= width whose
+// object keys come from the comma-separated menu (plus one other key). In the executor the shape is decided
+// lazily, when the code under test first looks at a part of it.
+func LazyJSON(depth, width int, keyMenu string) []byte {
+	s, _ := next("json").Val.(string)
+	return []byte(s)
+}
